@@ -1,0 +1,190 @@
+//go:build verif
+
+package client
+
+import (
+	"sync"
+	"time"
+
+	"github.com/arm-doe/sts"
+)
+
+// Exports for the verification harness in /verif (build tag "verif" only): the release
+// decisions of the sender (recover, scan clean-up, validator loop, finish, tracker).
+
+// VerifReleaseNewBroker builds a Broker that has not been started: the tag table and the
+// channels are initialised with the same statements as in Start(), the channel buffers are
+// sized by the caller so that the exported loops never block on the harness.
+func VerifReleaseNewBroker(conf *Conf, buf int) *Broker {
+	broker := &Broker{Conf: conf}
+	broker.throughput = &throughputMonitor{
+		logInterval: broker.Conf.StatInterval,
+	}
+	broker.tagMap = make(map[string]*FileTag)
+	broker.cleanAll = true
+	for _, tag := range broker.Conf.Tags {
+		broker.tagMap[tag.Name] = tag
+		broker.cleanAll = broker.cleanAll && tag.Delete
+		broker.cleanSome = broker.cleanSome || tag.Delete
+	}
+	broker.chStop = make(chan bool)
+	broker.chScanned = make(chan []sts.Hashed, buf)
+	broker.chRetry = make(chan sts.Polled, buf)
+	broker.chTransmitted = make(chan sts.Payload, buf)
+	broker.chValidate = make(chan sts.Pollable, buf)
+	return broker
+}
+
+// VerifReleaseRecover exposes recover().
+func (broker *Broker) VerifReleaseRecover() ([]sts.Hashed, error) {
+	return broker.recover()
+}
+
+// VerifReleaseScan exposes scan().
+func (broker *Broker) VerifReleaseScan() []sts.Hashed {
+	return broker.scan()
+}
+
+// VerifReleaseFinish exposes finish().
+func (broker *Broker) VerifReleaseFinish(file sts.Polled) {
+	broker.finish(file)
+}
+
+// VerifReleaseCanDelete exposes canDelete.
+func (broker *Broker) VerifReleaseCanDelete(file sts.File) bool {
+	return broker.canDelete(file)
+}
+
+// VerifPollFile describes one file handed to the validator loop.
+type VerifPollFile struct {
+	Name   string
+	Prev   string
+	Size   int64
+	Hash   string
+	Polled int
+}
+
+// VerifReleaseValidate feeds the files to the real startValidate loop through chValidate,
+// closes the channel and waits until the loop returns (its poll set is empty). It returns
+// what finish() put on the retry channel, in order.
+func (broker *Broker) VerifReleaseValidate(files []VerifPollFile) (retried []sts.Polled) {
+	for _, f := range files {
+		broker.chValidate <- &progressFile{
+			name:   f.Name,
+			prev:   f.Prev,
+			size:   f.Size,
+			sent:   f.Size,
+			hash:   f.Hash,
+			polled: f.Polled,
+		}
+	}
+	close(broker.chValidate)
+	var wg sync.WaitGroup
+	wg.Add(1)
+	broker.startValidate(&wg)
+	for {
+		select {
+		case p := <-broker.chRetry:
+			retried = append(retried, p)
+		default:
+			return
+		}
+	}
+}
+
+// VerifReleaseTrack feeds the payloads to the real startTrack loop through chTransmitted,
+// closes the channel and collects what the tracker hands to the validator. When the
+// tracker does not return by itself within `grace` (a file whose parts never add up keeps
+// it looping), the broker is stopped; `stuck` reports that.
+func (broker *Broker) VerifReleaseTrack(payloads []sts.Payload, grace time.Duration) (handed []sts.Pollable, stuck bool) {
+	broker.chStats = make(chan sts.Payload, len(payloads)+1)
+	for _, p := range payloads {
+		broker.chTransmitted <- p
+	}
+	close(broker.chTransmitted)
+	var wg sync.WaitGroup
+	wg.Add(1)
+	go broker.startTrack(&wg)
+	done := make(chan bool)
+	go func() {
+		wg.Wait()
+		close(done)
+	}()
+	timer := time.NewTimer(grace)
+	defer timer.Stop()
+	for {
+		select {
+		case p := <-broker.chValidate:
+			handed = append(handed, p)
+		case <-done:
+			for {
+				select {
+				case p := <-broker.chValidate:
+					handed = append(handed, p)
+				default:
+					return
+				}
+			}
+		case <-timer.C:
+			stuck = true
+			broker.stopMux.Lock()
+			broker.stop = true
+			broker.stopGraceful = false
+			broker.stopMux.Unlock()
+		}
+	}
+}
+
+// VerifReleaseDescribe tells what kind of object recover() put on the send list:
+// "placeholder" (recoverFile without ranges around a placeholderFile: a file only the
+// receiver knows), "allocated" (recoverFile without ranges around a cache entry),
+// "resume" (recoverFile with ranges) or "plain" (anything else, sent whole).
+func VerifReleaseDescribe(h sts.Hashed) (kind string, prev string, left []*sts.ByteRange, allocated bool) {
+	if rf, ok := h.(*recoverFile); ok {
+		prev = rf.prev
+		left = rf.left
+		allocated = rf.IsAllocated()
+		switch {
+		case len(rf.left) > 0:
+			kind = "resume"
+		default:
+			if _, ok := rf.Cached.(*placeholderFile); ok {
+				kind = "placeholder"
+			} else {
+				kind = "allocated"
+			}
+		}
+		return
+	}
+	kind = "plain"
+	return
+}
+
+// VerifReleaseDrainRetry returns what finish() has put on the retry channel so far.
+func (broker *Broker) VerifReleaseDrainRetry() (retried []sts.Polled) {
+	for {
+		select {
+		case p := <-broker.chRetry:
+			retried = append(retried, p)
+		default:
+			return
+		}
+	}
+}
+
+// VerifReleaseSent returns the byte count the tracker holds for a file it handed over.
+func VerifReleaseSent(p sts.Pollable) int64 {
+	if pf, ok := p.(*progressFile); ok {
+		return pf.sent
+	}
+	return -1
+}
+
+// VerifReleaseStopNow makes shouldStopNow() true (watchdog of the harness: a loop under test
+// that does not come back is told to stop, as an operator's immediate stop would).
+func (broker *Broker) VerifReleaseStopNow() {
+	broker.stopMux.Lock()
+	broker.stop = true
+	broker.stopGraceful = false
+	broker.stopMux.Unlock()
+}
